@@ -166,6 +166,7 @@ def run(ctx) -> None:
 
     # ---- R6 ---------------------------------------------------------------------
     check_nested_map_inputs(ctx, "C18.R6")
+    check_map_broadcast_values_are_provided(ctx, "C18.R6")
 
     # ---- R7 ---------------------------------------------------------------------
     check_no_broadcast_defaults(ctx, "C18.R7")
@@ -317,6 +318,39 @@ TS = "src/hypergraph/runners/_shared/template_sync.py"
 IN = "src/hypergraph/runners/_shared/input_normalization.py"
 TY = "src/hypergraph/runners/_shared/types.py"
 SR = "src/hypergraph/runners/sync/runner.py"
+def check_map_broadcast_values_are_provided(ctx, rule: str) -> None:
+    """What map() varies, broadcasts and (with clone) copies per item is what the caller provided — nothing that reads
+    the graph's bound values flows into it: a bound object merged in there becomes a clone-able broadcast value."""
+    db, rep = ctx.db, ctx.rep
+    n = 0
+    for m in template_methods(db, "map"):
+        defs = db.local_defs(m)
+        for c in db.calls_in(m):
+            if "generate_map_inputs" not in call_names(db, c, m) or not c.args:
+                continue
+            n += 1
+            seen: set[str] = set()
+            work = [x.id for x in ast.walk(c.args[0]) if isinstance(x, ast.Name)]
+            bad = next(((c, x) for x in ast.walk(c.args[0]) if isinstance(x, ast.Attribute) and x.attr in ("bound", "_bound")), None)
+            while work and bad is None:
+                nm = work.pop()
+                if nm in seen:
+                    continue
+                seen.add(nm)
+                for d in defs.get(nm, []):
+                    v = getattr(d, "value", None)
+                    if v is None:
+                        continue
+                    for x in ast.walk(v):
+                        if isinstance(x, ast.Attribute) and x.attr in ("bound", "_bound"):
+                            bad = (d, x)
+                        elif isinstance(x, ast.Name):
+                            work.append(x.id)
+            rep.add(rule, f"{m.qname}:broadcast-values-are-the-provided-ones", bad is None, f"{m.module.rel}:{(bad[0] if bad else c).lineno}", "the mapping handed to the per-item generator derives from the caller's values only" if bad is None else f"'{src(bad[0])[:70]}' merges the graph's bound values into the mapping that map() broadcasts: with clone=True (or a clone list naming it) a bound object is deep-copied per item, so the node receives a copy instead of the very object that was bound — also for an inner graph's own bindings, which the nested map merges back in")
+    if n < 2:
+        raise AnalysisError("generate_map_inputs call sites in the map templates not found")
+
+
 def check_nested_map_inputs(ctx, rule: str) -> None:
     """The inputs a mapping GraphNode executor hands to the nested ``map``: every translated input is
     forwarded unchanged, except exactly those whose value *is* the inner graph's own bound object
@@ -497,6 +531,7 @@ VARIANTS = [
     Variant("runner-keeps-last-state", SR, replace_once("        state = initialize_state(graph, values)\n        active_nodes = compute_active_node_set(graph)\n\n        for _ in range(max_iterations):", "        state = initialize_state(graph, values)\n        self._last_state = state\n        active_nodes = compute_active_node_set(graph)\n\n        for _ in range(max_iterations):"), {"C18.R4"}),
     Variant("module-level-run-registry", SR, lambda s: s.replace("DEFAULT_MAX_ITERATIONS = 1000\n", "DEFAULT_MAX_ITERATIONS = 1000\n_RUNS: dict = {}\n", 1).replace("        state = initialize_state(graph, values)\n        active_nodes = compute_active_node_set(graph)\n\n        for _ in range(max_iterations):", "        state = initialize_state(graph, values)\n        _RUNS[run_id] = state\n        active_nodes = compute_active_node_set(graph)\n\n        for _ in range(max_iterations):"), {"C18.R4"}),
     Variant("bind-deepcopies", "src/hypergraph/graph/core.py", lambda s_: s_.replace("        new_graph._bound = {**self._bound, **values}", "        import copy as _copy\n\n        new_graph._bound = {**self._bound, **{k: _copy.deepcopy(v) for k, v in values.items()}}"), {"C18.R5"}),
+    Variant("sync-map-broadcasts-bound-values", "src/hypergraph/runners/_shared/template_sync.py", replace_once("        input_variations = list(generate_map_inputs(normalized_values, map_over_list, map_mode, clone))", "        input_variations = list(generate_map_inputs({**graph.inputs.bound, **normalized_values}, map_over_list, map_mode, clone))"), {"C18.R6"}),
     Variant("map-passes-inner-bound-to-clone-path", "src/hypergraph/runners/sync/executors/graph_node.py", replace_once("                node.graph,\n                map_inputs,", "                node.graph,\n                inner_inputs,"), {"C18.R6"}),
     Variant("twin-resolver-inverted-test", HP, replace_once("    if source == ValueSource.DEFAULT:\n        return _safe_deepcopy(value, param_name=param)\n\n    # All other sources: return as-is (no copying)\n    return value", "    if source != ValueSource.DEFAULT:\n        return value\n    return _safe_deepcopy(value, param_name=param)"), set()),
     Variant("provided-values-merged-into-spec", "src/hypergraph/runners/_shared/validation.py", replace_once("    merged = {**inputs_spec.bound, **values}", "    merged = inputs_spec.bound\n    merged.update(values)"), {"C18.R8"}),
